@@ -46,7 +46,7 @@ def gen_case(rng, params, index):
             hists.append({"init": {"lines": il, "ops": io}, "groups": groups})
         except Exception as e:
             errs.append("history %d: %s" % (k, e))
-    return {"kind": "qtdoc", "c16_kind": kind, "profile": "bindings", "doc": doc, "histories": hists, "gen_errors": errs}
+    return qtcheck.add_predecessor({"kind": "qtdoc", "c16_kind": kind, "profile": "bindings", "doc": doc, "histories": hists, "gen_errors": errs}, rng)
 
 
 def run_case(case, env):
